@@ -4241,11 +4241,16 @@ fn expand_entity(
     let mut parsed = String::new();
     for value in entity.borrow().values().unwrap_or_default() {
         match &value {
-            XmlEntityValue::Character(v, r) => match r {
-                10 => parsed.push(char_from_char10(v)?),
-                16 => parsed.push(char_from_char16(v)?),
-                _ => unreachable!(),
-            },
+            XmlEntityValue::Character(v, r) => {
+                // A character reference in an entity literal is part of the replacement text
+                // (XML 1.0 4.5), so white space it denotes is normalized like literal white space.
+                let c = match r {
+                    10 => char_from_char10(v)?,
+                    16 => char_from_char16(v)?,
+                    _ => unreachable!(),
+                };
+                parsed.push_str(normalize_ws(c.to_string().as_str()).as_str());
+            }
             XmlEntityValue::Entity(v) => {
                 let v = expand_entity(v, context, visited)?;
                 parsed.push_str(v.as_str());
